@@ -87,6 +87,14 @@ Definition id_kernel (id : int) : bool :=
   && date_eqb (date_add_days e 1) (month_start_of_id (iadd id 1))
   && ieq (dday e) (py_monthrange_days (dyear e) (dmonth e))
   && in_rng (of_Z LO) (of_Z HI) (ord_of_date e) && in_rng (of_Z LO) (of_Z HI) (ord_of_date s).
+(* the same losslessness for the months of 1900-1969 (negative ids) *)
+Definition idpre_kernel (id : int) : bool :=
+  let s := month_start_of_id id in
+  let e := month_end_of_id id in
+  ieq (py_month_to_id s) id && ieq (py_month_to_id e) id
+  && py_is_month_start s && py_is_month_end e && valid_ymd s && valid_ymd e
+  && date_eqb (date_add_days e 1) (month_start_of_id (iadd id 1))
+  && ile 1900 (dyear s) && ile (dyear e) 1969.
 (* for every date: the month it belongs to is bracketed by id_to_month(month_to_id d) *)
 Definition bracket_kernel (o : int) : bool :=
   let d := date_of_ord o in
